@@ -87,6 +87,19 @@ def gen_instance(rng, profile="mixed", nj=None, nm=None):
         return gen_race(rng)
     if profile == "multibuf":
         return gen_multibuf(rng)
+    if profile == "outs":
+        # several outages on the SAME component with different durations and frequencies (they strike together and
+        # apart), on machines and on AGVs
+        d, feats = gen_instance(rng, "full", nj=rng.randint(2, 3), nm=2)
+        outs = []
+        for comp in ("m", "t"):
+            for _ in range(rng.randint(1, 3)):
+                outs.append({"component": rng.choice([comp, comp, "m-%d" % rng.randrange(2)] if comp == "m" else [comp]),
+                             "type": rng.choice(["maintenance", "fail", "recharge"]),
+                             "duration": rng.randint(0, 7), "frequency": rng.randint(0, 6)})
+        d["instance_config"]["outages"] = outs
+        feats.update(profile="outs", noutages=len(outs))
+        return d, feats
     if profile == "wide":
         # two-digit machine, operation and buffer numbers (string order differs from numeric order): few jobs,
         # 11-12 machines, short durations; classic or with AGVs (zero or unit travel) so that episodes stay short
@@ -182,6 +195,10 @@ def gen_instance(rng, profile="mixed", nj=None, nm=None):
         st.append(e)
     ic["setup_times"] = st
     feats["ntools"] = ntools
+    if rng.random() < 0.2:
+        # tools without a setup_times section: the documented default is a zero setup time for EVERY ordered pair
+        del ic["setup_times"]
+        feats["default_setup"] = True
     kinds = ("det",) if profile != "stoch" else ("det", "poisson", "uni", "gaussian", "gamma")
     outs = []
     for comp in ("m", "t", "m-%d" % rng.randrange(nm)):
@@ -194,8 +211,9 @@ def gen_instance(rng, profile="mixed", nj=None, nm=None):
     if profile == "stoch" and rng.random() < 0.7:
         # stochastic processing times (the table entry is the base)
         inst["time_behavior"] = rng.choice([{"type": "uni", "offset": rng.randint(1, 9)}, {"type": "poisson"},
-                                            {"type": "gaussian", "std": rng.choice([1, 2, 4])},
-                                            {"type": "uni", "offset": rng.randint(1, 3)}])
+                                            {"type": "gaussian", "std": rng.choice([1, 2, 4, 0.5, 2.5])},
+                                            {"type": "uni", "offset": rng.choice([1, 2, 3, 0.5, 2.5])},
+                                            {"type": "gamma", "scale": rng.choice([1, 2, 0.5])}])
         feats["stoch_durations"] = inst["time_behavior"]["type"]
     if profile == "stoch" and rng.random() < 0.6:
         lg["time_behavior"] = {"type": rng.choice(["poisson", "uni"]), "offset": 1, "mean": 3}
